@@ -115,7 +115,7 @@ class Check(PropCheck):
     assumptions = ['the stdlib tokenizer\'s own totality and running time are observed, not proved; the model is fed the token '
                    'sequences html.parser reports for the text and for the wrapped text',
                    'wall-clock bound: 0.5 s + 5 ms per character per parse, re-run three times before a hang is reported',
-                   'stripIEConditionals is applied by the real library code on the harness side before tokenising']
+                   'stripIEConditionals is applied by the real library code on the harness side before tokenising (the function itself is modelled and tied in C02: Model/StripIE.lean)']
 
     def random_text(self, rng):
         if rng.random() < 0.35:
